@@ -44,8 +44,10 @@ CHECK = {
                             "ops_chain_roots_per_geometry": "all"}},
     "parts": [
         {"name": "rays", "harness": "c03_nav", "flavour": "rel",
+         "depth": {"quick": "thorough"},   # thorough bounds cost ~60 s
          "shards": {"quick": 16, "thorough": 16}, "deadline": {"quick": 100, "thorough": 900}},
         {"name": "ops", "harness": "c03_nav", "flavour": "rel",
+         "depth": {"quick": "thorough"},   # thorough bounds cost ~60 s
          "shards": {"quick": 16, "thorough": 16}, "deadline": {"quick": 100, "thorough": 1200}},
     ],
 }
